@@ -30,11 +30,41 @@ func VerifSimSeed(seed uint64) { atomic.Store64(&verifSimState, seed) }
 
 //go:nosplit
 func verifSimNext() uint64 {
+	verifDraws++
 	z := atomic.Xadd64(&verifSimState, -0x61c8864680b583eb)
 	z = (z ^ (z >> 30)) * 0xbf58476d1ce4e5b9
 	z = (z ^ (z >> 27)) * 0x94d049bb133111eb
+	verifEvAdd(4, verifDraws)
 	return z ^ (z >> 31)
 }
+
+var verifDraws uint64
+
+// diagnostic event log (off unless VerifEvLogOn): yield sites passed, run-queue
+// and select draws, in order, with the goroutine id; static storage so that
+// recording does not allocate
+var verifEvOn bool
+var verifEvN uint32
+var verifEv [1 << 22]uint64
+
+func VerifEvLogOn()        { verifEvOn = true; verifEvN = 0 }
+func VerifEvLog() []uint64 { return verifEv[:verifEvN] }
+
+//go:nosplit
+func verifEvAdd(kind, v uint64) {
+	if verifEvOn && verifEvN < uint32(len(verifEv)) {
+		var id uint64
+		if cg := getg().m.curg; cg != nil {
+			id = cg.goid
+		}
+		verifEv[verifEvN] = kind<<56 | (id&0xffffff)<<32 | v&0xffffffff
+		verifEvN++
+	}
+}
+
+// VerifDraws returns the number of draws taken from the seeded stream and the
+// current yield-trace hash (diagnostics: localising a same-seed divergence).
+func VerifDraws() (uint64, uint64) { return verifDraws, verifTrace }
 
 var verifSimSched uint32
 
@@ -45,6 +75,11 @@ func VerifSimSched(x uint32) { atomic.Store(&verifSimSched, x) }
 func verifSimSchedSkip() bool {
 	x := atomic.Load(&verifSimSched)
 	return x != 0 && verifSimRandn(256) < x
+}
+
+func verifSimSelect(n uint32) uint32 {
+	verifEvAdd(3, uint64(n))
+	return verifSimRandn(n)
 }
 
 var verifSpin, verifSpinBreaks uint64
@@ -72,6 +107,7 @@ func VerifYield(site uint32) {
 	}
 	gp := getg()
 	verifTrace = (verifTrace ^ uint64(site)) * 0x100000001b3
+	verifEvAdd(1, uint64(site))
 	if verifSpin++; verifSpin > 200000 && gp.bubble != nil {
 		// Busy loop in the system under test: the bubble never becomes
 		// idle, so the simulated clock (and the driver) cannot advance.
@@ -86,6 +122,14 @@ func VerifYield(site uint32) {
 	}
 }
 
+// readies of goroutines outside any bubble (runtime helpers, the test's
+// main goroutine): their timing is not under the simulator's control
+var verifNBReady, verifNBHash uint64
+var verifNBPCs [8]uintptr
+
+func VerifNonBubble() (uint64, uint64, [8]uintptr) { return verifNBReady, verifNBHash, verifNBPCs }
+func VerifNonBubbleReset()                         { verifNBReady, verifNBHash = 0, 0 }
+
 func verifSimRandn(n uint32) uint32 {
 	return uint32((uint64(uint32(verifSimNext())) * uint64(n)) >> 32)
 }`
@@ -97,15 +141,28 @@ var patches = map[string][]sub{
 		{"func maps_rand() uint64 {\n\treturn rand()\n}", randAdd, 1},
 		{"\"internal/runtime/math\"\n", "\"internal/runtime/atomic\"\n\t\"internal/runtime/math\"\n", 1},
 	},
+	"runtime/sema.go": {
+		// sync.Mutex decides about starvation mode (direct hand-off to the
+		// oldest waiter, which reorders the run queue) from how long a
+		// waiter has waited in REAL time (> 1 ms): a wall-clock leak that
+		// flips schedules on a loaded machine. Inside a bubble the mutex
+		// reads the bubble's clock instead.
+		{"func internal_sync_nanotime() int64 {\n\treturn nanotime()\n}", "func internal_sync_nanotime() int64 {\n\tif b := getg().bubble; b != nil {\n\t\treturn b.now\n\t}\n\treturn nanotime()\n}", 1},
+	},
+	"runtime/mheap.go": {
+		// diagnostics only (event log): which spans are handed out, in order
+		{"\t\ts = h.allocSpan(npages, spanAllocHeap, spanclass)\n", "\t\ts = h.allocSpan(npages, spanAllocHeap, spanclass)\n\t\tif s != nil {\n\t\t\tverifEvAdd(5, uint64(s.base()>>13)^uint64(spanclass)<<28)\n\t\t}\n", 1},
+		{"\treturn h.allocSpan(npages, typ, 0)\n", "\tms := h.allocSpan(npages, typ, 0)\n\tif ms != nil {\n\t\tverifEvAdd(6, uint64(ms.base()>>13))\n\t}\n\treturn ms\n", 1},
+	},
 	"runtime/select.go": {
-		{"j := cheaprandn(uint32(norder + 1))", "j := verifSimRandn(uint32(norder + 1))", 1},
+		{"j := cheaprandn(uint32(norder + 1))", "j := verifSimSelect(uint32(norder + 1))", 1},
 	},
 	"runtime/time.go": {
 		{"t.rand = cheaprand()", "t.rand = uint32(verifSimNext())", 1},
 	},
 	"runtime/proc.go": {
 		{"const forcePreemptNS = 10 * 1000 * 1000 // 10ms", "const forcePreemptNS = 1 << 60 // verif: no time-slice preemption", 1},
-		{"if randomizeScheduler && next && randn(2) == 0 {", "if next && verifSimSchedSkip() {", 1},
+		{"if randomizeScheduler && next && randn(2) == 0 {", "if gp.bubble == nil {\n\t\tverifNBReady++\n\t\tverifNBHash = (verifNBHash ^ uint64(gp.startpc)) * 0x100000001b3\n\t\tif verifNBReady <= 8 {\n\t\t\tverifNBPCs[verifNBReady-1] = gp.startpc\n\t\t}\n\t}\n\tverifEvAdd(2, uint64(gp.goid))\n\tif next && verifSimSchedSkip() {", 1},
 		{"j := cheaprandn(i + 1)", "j := verifSimRandn(i + 1)", 2},
 		// never retake a P from a goroutine in a system call: a hand-off
 		// creates a new thread at a load-dependent moment, and the thread's
